@@ -36,6 +36,7 @@ def instances(tier):
     out.append(dict(id="time-lookup-dense-euler-N2", family="euler", N=2, mode="time", dense=True, budget=b))
     for mode in ("time", "slice", "index"):
         out.append(dict(id="%s-after-events-euler-N2" % ("time-lookup" if mode == "time" else mode), family="euler", N=2, mode=mode, dense=False, events=True, budget=b))
+    out.append(dict(id="time-lookup-dense-continued-tol-change-euler-N2", family="euler", N=2, mode="time", dense=True, cont=True, tol_change=True, budget=b))
     out.append(dict(id="time-lookup-continued-euler-N2", family="euler", N=2, mode="time", dense=False, cont=True, budget=b))
     # the run goes AGAINST the direction of the constructor's (t0, tf) span: integrate(T) with T on the other side of t0
     for mode in ("time", "slice", "index"):
@@ -68,6 +69,11 @@ def scenario(c, inst):
             st, r = run(a.integrate, T1, callback=spans.cap_callback(c, cap, kind))
             if st != "ok":
                 return      # failures are C12's subject
+            if inst.get("tol_change"):
+                # a setting is changed between the two legs (tolerances: irrelevant for a fixed-step method's grid): what was recorded
+                # and interpolated so far stays
+                a.rtol = 1e-5
+                a.atol = 1e-7
             c.assume(absval(c, tf - T1) <= inst["N"] * absval(c, a.dt))
         if inst.get("against"):
             Tr = c.real("Trev")
@@ -127,6 +133,12 @@ def scenario(c, inst):
             c.check("c19.time_lookup_returns", False, info=repr(r))
             return
         if inst.get("dense"):
+            # at every recorded time the dense lookup returns the recorded state (an oracle independent of the dense output itself)
+            at_nodes = []
+            for k_ in range(n):
+                stn, rn = run(a.__getitem__, T[k_] + 0.0 * q)
+                at_nodes.append(stn == "ok" and _eqv(c, rn.y, Y[k_]))
+            c.check("c19.dense_lookup_at_recorded_times_returns_recorded_states", c.all(at_nodes), info=dict(n=n))
             c.check("c19.dense_lookup_time_is_query", c.eq(r.t, q))
             lo_ok = (q - T[0]) * (T[-1] - q) >= 0
             if c.symbolic:
